@@ -36,10 +36,19 @@ const TARGETS: &[Target] = &[
              func: "try_into_range", calls: &[], deps: &[] },
     Target { name: "complement_std_range", file: "src/bounds/userbounds.rs", impl_trait: None, impl_self: None,
              func: "complement_std_range", calls: &[], deps: &[] },
+    Target { name: "ub_new", file: "src/bounds/userbounds.rs", impl_trait: Some("UserBoundsTrait"), impl_self: Some("UserBounds"),
+             func: "new", calls: &[], deps: &[] },
+    Target { name: "ub_from_range", file: "src/bounds/userbounds.rs", impl_trait: Some("From"), impl_self: Some("UserBounds"),
+             func: "from", calls: &[("UserBounds::new", "gen_ub_new")], deps: &["ub_new"] },
+    Target { name: "ub_unpack", file: "src/bounds/userbounds.rs", impl_trait: Some("UserBoundsTrait"), impl_self: Some("UserBounds"),
+             func: "unpack", calls: &[("UserBounds::new", "gen_ub_new"), ("try_into_range", "gen_ub_try_into_range")], deps: &["ub_new", "ub_try_into_range"] },
+    Target { name: "ub_complement", file: "src/bounds/userbounds.rs", impl_trait: Some("UserBoundsTrait"), impl_self: Some("UserBounds"),
+             func: "complement", calls: &[("try_into_range", "gen_ub_try_into_range"), ("complement_std_range", "gen_complement_std_range"), ("into", "gen_ub_from_range")],
+             deps: &["ub_try_into_range", "complement_std_range", "ub_from_range"] },
 ];
 
-#[derive(Clone, Copy, PartialEq, Debug)]
-enum Ty { I32, Usize, Bool, Side, Other }
+#[derive(Clone, PartialEq, Debug)]
+enum Ty { I32, Usize, Bool, Side, UB, Range, Opt(Box<Ty>), List(Box<Ty>), Other }
 
 type R<T> = std::result::Result<T, String>;
 
@@ -47,6 +56,7 @@ struct Cx {
     env: Vec<(String, Ty)>,
     fresh: usize,
     calls: HashMap<String, String>,
+    call_ty: HashMap<String, Ty>,
     tuple_hint: Vec<Ty>,
     ret_ty: String,
 }
@@ -83,6 +93,8 @@ fn ctor1(p: &str) -> Option<(&'static str, Ty)> {
         "Side::Some" => ("SSome", Ty::I32),
         "Some" => ("Some", Ty::Other),
         "Ok" => ("Some", Ty::Other),
+        "BoundOrFiller::Bound" => ("Bound", Ty::UB),
+        "BoundOrFiller::Filler" => ("Filler", Ty::Other),
         _ => return None,
     })
 }
@@ -95,6 +107,8 @@ fn field(name: &str) -> Option<(&'static str, Ty)> {
         "fallback_oob" => ("bfb", Ty::Other),
         "start" => ("fst", Ty::Usize),
         "end" => ("snd", Ty::Usize),
+        "list" => ("items", Ty::List(Box::new(Ty::Other))),
+        "last_interesting_field" => ("lif", Ty::Side),
         _ => return None,
     })
 }
@@ -103,15 +117,24 @@ fn ty_of_type(t: &Type) -> (String, Ty) {
     match t {
         Type::Reference(r) => ty_of_type(&r.elem),
         Type::Path(p) => {
-            let s = path_str(&p.path);
-            match s.as_str() {
+            let seg = match p.path.segments.last() { Some(s) => s, None => return ("UNKNOWN".into(), Ty::Other) };
+            let arg0 = || -> (String, Ty) {
+                match &seg.arguments {
+                    PathArguments::AngleBracketed(a) => match a.args.first() { Some(GenericArgument::Type(t)) => ty_of_type(t), _ => ("UNKNOWN".into(), Ty::Other) },
+                    _ => ("UNKNOWN".into(), Ty::Other),
+                }
+            };
+            match seg.ident.to_string().as_str() {
                 "i32" => ("Z".into(), Ty::I32),
                 "usize" => ("Z".into(), Ty::Usize),
                 "bool" => ("bool".into(), Ty::Bool),
                 "Side" => ("side".into(), Ty::Side),
-                "UserBounds" => ("ubound".into(), Ty::Other),
-                "Range" => ("(Z * Z)%type".into(), Ty::Other),
-                _ => (format!("UNKNOWN_{}", s.replace("::", "_")), Ty::Other),
+                "Ordering" => ("comparison".into(), Ty::Other),
+                "UserBounds" => ("ubound".into(), Ty::UB),
+                "Range" => ("(Z * Z)%type".into(), Ty::Range),
+                "Option" | "Result" => { let (c, t) = arg0(); (format!("(option {})", c), Ty::Opt(Box::new(t))) }
+                "Vec" => { let (c, t) = arg0(); (format!("(list {})", c), Ty::List(Box::new(t))) }
+                other => (format!("UNKNOWN_{}", other), Ty::Other),
             }
         }
         _ => ("UNKNOWN".into(), Ty::Other),
@@ -125,7 +148,7 @@ impl Cx {
         format!("{}_{}", base, self.fresh)
     }
     fn lookup(&self, v: &str) -> Option<Ty> {
-        self.env.iter().rev().find(|(n, _)| n == v).map(|(_, t)| *t)
+        self.env.iter().rev().find(|(n, _)| n == v).map(|(_, t)| t.clone())
     }
 
     // ---------------------------------------------------------------- types (a light inference)
@@ -138,7 +161,13 @@ impl Cx {
             Expr::Unary(u) => match u.op { UnOp::Not(_) => Ty::Bool, _ => self.ty(&u.expr) },
             Expr::Cast(c) => ty_of_type(&c.ty).1,
             Expr::Field(f) => match &f.member { Member::Named(n) => field(&n.to_string()).map_or(Ty::Other, |x| x.1), _ => Ty::Other },
-            Expr::MethodCall(m) => match m.method.to_string().as_str() { "is_positive" | "is_negative" | "is_some" | "is_none" => Ty::Bool, _ => Ty::Other },
+            Expr::Try(t) => match self.ty(&t.expr) { Ty::Opt(t) => *t, _ => Ty::Other },
+            Expr::MethodCall(m) => match m.method.to_string().as_str() {
+                "is_positive" | "is_negative" | "is_some" | "is_none" => Ty::Bool,
+                "clone" | "into_iter" | "iter" => self.ty(&m.receiver),
+                name => self.call_ty.get(name).cloned().unwrap_or(Ty::Other),
+            },
+            Expr::Call(c) => match &*c.func { Expr::Path(p) => self.call_ty.get(&path_str(&p.path)).cloned().unwrap_or(Ty::Other), _ => Ty::Other },
             Expr::Binary(b) => match b.op {
                 BinOp::Add(_) | BinOp::Sub(_) | BinOp::Mul(_) => { let l = self.ty(&b.left); if l == Ty::Other { self.ty(&b.right) } else { l } }
                 _ => Ty::Bool,
@@ -193,9 +222,8 @@ impl Cx {
                 let inner = match self.pure(&c.expr)? { Some(b) => b, None => return Ok(None) };
                 let from = self.ty(&c.expr);
                 let to = ty_of_type(&c.ty).1;
-                match (from, to) {
-                    (_, Ty::I32) if from == Ty::I32 => inner,
-                    (_, Ty::Usize) if from == Ty::Usize => inner,
+                match (&from, &to) {
+                    (Ty::I32, Ty::I32) | (Ty::Usize, Ty::Usize) => inner,
                     (Ty::Usize, Ty::I32) => format!("(cast_i32 {})", inner),
                     (Ty::I32, Ty::Usize) => format!("(cast_usize {})", inner),
                     _ => return Err(format!("cast {:?} -> {:?}", from, to)),
@@ -211,6 +239,7 @@ impl Cx {
             Expr::MethodCall(m) => {
                 let name = m.method.to_string();
                 if self.calls.contains_key(&name) { return Ok(None); }
+                if ["expect", "unwrap", "collect", "map", "try_into", "into"].contains(&name.as_str()) { return Ok(None); }
                 let recv = match self.pure(&m.receiver)? { Some(x) => x, None => return Ok(None) };
                 let mut args = vec![];
                 for a in &m.args { match self.pure(a)? { Some(x) => args.push(x), None => return Ok(None) } }
@@ -218,7 +247,7 @@ impl Cx {
                     ("is_positive", 0) => format!("(0 <? {})", recv),
                     ("is_negative", 0) => format!("({} <? 0)", recv),
                     ("cmp", 1) => format!("(i32_cmp {} {})", recv, args[0]),
-                    ("clone", 0) => recv,
+                    ("clone", 0) | ("into_iter", 0) | ("iter", 0) => recv,
                     _ => return Err(format!("method `{}`", name)),
                 }
             }
@@ -236,6 +265,16 @@ impl Cx {
                 let mut xs = vec![];
                 for a in &t.elems { match self.pure(a)? { Some(x) => xs.push(x), None => return Ok(None) } }
                 if xs.is_empty() { "tt".into() } else { format!("({})", xs.join(", ")) }
+            }
+            Expr::Struct(s) if path_str(&s.path) == "UserBounds" => {
+                let mut vals: HashMap<String, String> = HashMap::new();
+                for f in &s.fields {
+                    let v = match self.pure(&f.expr)? { Some(x) => x, None => return Ok(None) };
+                    match &f.member { Member::Named(n) => { vals.insert(n.to_string(), v); } _ => return Err("UserBounds field".into()) }
+                }
+                if s.rest.is_some() || vals.len() != 4 { return Err("UserBounds literal must give its four fields".into()); }
+                let g = |k: &str| vals.get(k).cloned().ok_or(format!("UserBounds.{}", k));
+                format!("(mkB {} {} {} {})", g("l")?, g("r")?, g("is_last")?, g("fallback_oob")?)
             }
             Expr::Struct(s) => {
                 if path_str(&s.path) != "Range" { return Err(format!("struct literal `{}`", path_str(&s.path))); }
@@ -295,23 +334,25 @@ impl Cx {
             Pat::Ident(i) => {
                 let n = i.ident.to_string();
                 if let Some(c) = unit_ctor(&n) { (c.to_string(), false) }
-                else { self.env.push((n.clone(), hint)); (ident(&n), true) }
+                else { self.env.push((n.clone(), hint.clone())); (ident(&n), true) }
             }
-            Pat::Reference(r) => return self.pat(&r.pat, hint),
-            Pat::Paren(r) => return self.pat(&r.pat, hint),
+            Pat::Reference(r) => return self.pat(&r.pat, hint.clone()),
+            Pat::Paren(r) => return self.pat(&r.pat, hint.clone()),
             Pat::Type(t) => { let ty = ty_of_type(&t.ty).1; return self.pat(&t.pat, ty); }
             Pat::Tuple(t) => {
                 let mut xs = vec![]; let mut irr = true;
                 for (k, e) in t.elems.iter().enumerate() {
-                    let h = match hint { Ty::Other => self.tuple_hint.get(k).copied().unwrap_or(Ty::Other), h => h };
+                    let h = match &hint { Ty::Other => self.tuple_hint.get(k).cloned().unwrap_or(Ty::Other), h => h.clone() };
                     let (s, i) = self.pat(e, h)?; xs.push(s); irr &= i;
                 }
                 (format!("({})", xs.join(", ")), irr)
             }
             Pat::TupleStruct(ts) => {
                 let c = path_str(&ts.path);
+                if c == "Err" { return Ok(("None".into(), false)); }
                 let (g, aty) = ctor1(&c).ok_or(format!("pattern constructor `{}`", c))?;
                 if ts.elems.len() != 1 { return Err("pattern arity".into()); }
+                let aty = match (&aty, &hint) { (Ty::Other, Ty::Opt(t)) => (**t).clone(), _ => aty };
                 let (s, _) = self.pat(&ts.elems[0], aty)?;
                 (format!("({} {})", g, s), false)
             }
@@ -414,6 +455,36 @@ impl Cx {
                 for (a, n) in c.args.iter().zip(names.iter()).rev() { acc = self.tr(a, &format!("(fun {} => {})", n, acc))?; }
                 Ok(acc)
             }
+            Expr::MethodCall(m) if (m.method == "expect" || m.method == "unwrap")
+                    && matches!(&*m.receiver, Expr::MethodCall(i) if i.method == "try_into" && i.args.is_empty()) => {
+                // usize -> i32 conversion that panics when it does not fit
+                let inner = match &*m.receiver { Expr::MethodCall(i) => &i.receiver, _ => unreachable!() };
+                if self.ty(inner) != Ty::Usize { return Err("try_into() from a type other than usize".into()); }
+                let x = self.fresh("t");
+                self.tr(inner, &format!("(fun {} => (bind (usize_to_i32 {}) {}))", x, x, k))
+            }
+            Expr::MethodCall(m) if m.method == "collect" && matches!(&*m.receiver, Expr::MethodCall(i) if i.method == "map" && i.args.len() == 1) => {
+                // ITER.map(|x| BODY).collect()  ==>  the bodies evaluated in order over the elements
+                let mp = match &*m.receiver { Expr::MethodCall(i) => i, _ => unreachable!() };
+                let clo = match &mp.args[0] { Expr::Closure(c) => c, Expr::Path(p) => {
+                        // a constructor used as a function: .map(BoundOrFiller::Bound)
+                        let f = path_str(&p.path);
+                        let (g, _) = ctor1(&f).ok_or(format!("map over `{}`", f))?;
+                        let src = self.fresh("a");
+                        return self.tr(&mp.receiver, &format!("(fun {} => ({} (List.map {} (to_list {}))))", src, k, g, src));
+                    }
+                    _ => return Err("map over something that is not a closure".into()) };
+                if clo.inputs.len() != 1 { return Err("closure arity".into()); }
+                let elem_ty = match self.ty(&mp.receiver) { Ty::Range => Ty::Usize, Ty::List(t) => *t, _ => Ty::Other };
+                let mark = self.env.len();
+                self.tuple_hint = vec![];
+                let (p, irr) = self.pat(&clo.inputs[0], elem_ty)?;
+                if !irr { return Err("refutable closure parameter".into()); }
+                let body = self.tr(&clo.body, "(fun x => Ret x)")?;
+                self.env.truncate(mark);
+                let src = self.fresh("a");
+                self.tr(&mp.receiver, &format!("(fun {} => (bind (mapM (fun {} => {}) (to_list {})) {}))", src, p, body, src, k))
+            }
             Expr::MethodCall(m) => {
                 let name = m.method.to_string();
                 let g = self.calls.get(&name).cloned().ok_or(format!("method `{}` with an effectful operand", name))?;
@@ -454,7 +525,7 @@ impl Cx {
         for arm in m.arms.iter().rev() {
             let mark = self.env.len();
             self.tuple_hint = hints.clone();
-            let (p, irrefutable) = self.pat(&arm.pat, whole_hint)?;
+            let (p, irrefutable) = self.pat(&arm.pat, whole_hint.clone())?;
             let body = self.tr(&arm.body, &kj)?;
             let fall = self.fresh("fall");
             let guarded = match &arm.guard {
@@ -567,22 +638,28 @@ fn find_fn<'a>(file: &'a File, t: &Target) -> Option<(&'a Signature, &'a Block, 
     None
 }
 
-fn translate(t: &Target, sig: &Signature, block: &Block) -> R<String> {
-    let mut cx = Cx { env: vec![], fresh: 0, calls: t.calls.iter().map(|(a, b)| (a.to_string(), b.to_string())).collect(), tuple_hint: vec![], ret_ty: String::new() };
+fn translate(t: &Target, sig: &Signature, block: &Block, ret_tys: &HashMap<String, Ty>) -> R<(String, Ty)> {
+    let mut cx = Cx { env: vec![], fresh: 0, calls: t.calls.iter().map(|(a, b)| (a.to_string(), b.to_string())).collect(),
+                      call_ty: t.calls.iter().filter_map(|(a, b)| ret_tys.get(*b).map(|ty| (a.to_string(), ty.clone()))).collect(),
+                      tuple_hint: vec![], ret_ty: String::new() };
+    let self_coq = match t.impl_self { Some("Side") => ("side", Ty::Side), Some("UserBounds") => ("ubound", Ty::UB), _ => ("UNKNOWN", Ty::Other) };
+    let mut rty = Ty::Other;
     cx.ret_ty = match &sig.output {
-        ReturnType::Type(_, t) => ret_type(t).ok_or("return type")?,
+        ReturnType::Type(_, t) => {
+            if matches!(&**t, Type::Path(p) if path_str(&p.path) == "Self") { rty = self_coq.1.clone(); self_coq.0.to_string() }
+            else { rty = ty_of_type(t).1; ret_type(t).ok_or("return type")? }
+        }
         ReturnType::Default => "unit".into(),
     };
-    let self_coq = match t.impl_self { Some("Side") => ("side", Ty::Side), Some("UserBounds") => ("ubound", Ty::Other), _ => ("UNKNOWN", Ty::Other) };
     let mut params = String::new();
     for a in &sig.inputs {
         match a {
-            FnArg::Receiver(_) => { cx.env.push(("self".into(), self_coq.1)); write!(params, " (self : {})", self_coq.0).unwrap(); }
+            FnArg::Receiver(_) => { cx.env.push(("self".into(), self_coq.1.clone())); write!(params, " (self : {})", self_coq.0).unwrap(); }
             FnArg::Typed(pt) => {
                 let name = match &*pt.pat { Pat::Ident(i) => i.ident.to_string(), _ => return Err("parameter pattern".into()) };
                 let (coq, ty) = match &*pt.ty {
-                    Type::Reference(r) if matches!(&*r.elem, Type::Path(p) if path_str(&p.path) == "Self") => (self_coq.0.to_string(), self_coq.1),
-                    Type::Path(p) if path_str(&p.path) == "Self" => (self_coq.0.to_string(), self_coq.1),
+                    Type::Reference(r) if matches!(&*r.elem, Type::Path(p) if path_str(&p.path) == "Self") => (self_coq.0.to_string(), self_coq.1.clone()),
+                    Type::Path(p) if path_str(&p.path) == "Self" => (self_coq.0.to_string(), self_coq.1.clone()),
                     other => ty_of_type(other),
                 };
                 if coq.starts_with("UNKNOWN") { return Err(format!("parameter type of `{}`", name)); }
@@ -593,7 +670,7 @@ fn translate(t: &Target, sig: &Signature, block: &Block) -> R<String> {
     }
     let k = cx.retk();
     let body = cx.stmts(&block.stmts, &k)?;
-    Ok(format!("Definition gen_{}{} : rs {} :=\n  {}.\n", t.name, params, cx.ret_ty, body))
+    Ok((format!("Definition gen_{}{} : rs {} :=\n  {}.\n", t.name, params, cx.ret_ty, body), rty))
 }
 
 fn main() {
@@ -603,6 +680,7 @@ fn main() {
     std::fs::create_dir_all(out).unwrap();
     let mut status = String::from("{\n");
     let mut okset: Vec<&str> = vec![];
+    let mut ret_tys: HashMap<String, Ty> = HashMap::new();
     for (n, t) in TARGETS.iter().enumerate() {
         let path = format!("{}/{}", root, t.file);
         let outfile = format!("{}/Gen_{}.v", out, t.name);
@@ -611,7 +689,8 @@ fn main() {
             let file = parse_file(&src).map_err(|e| format!("unsupported: the file does not parse: {}", e))?;
             let (sig, block, line) = find_fn(&file, t).ok_or(format!("missing: no `{}` in {}", t.func, t.file))?;
             for d in t.deps { if !okset.contains(d) { return Err(format!("unsupported: depends on `{}`, which was not translated", d)); } }
-            let def = translate(t, sig, block).map_err(|e| format!("unsupported: {}", e))?;
+            let (def, rty) = translate(t, sig, block, &ret_tys).map_err(|e| format!("unsupported: {}", e))?;
+            ret_tys.insert(format!("gen_{}", t.name), rty);
             Ok((def, line))
         })();
         let (st, detail, line) = match res {
